@@ -91,9 +91,98 @@ pub fn typed_text_case(ctx: &mut Ctx, ls: &Layouts, compressed: bool, kind: &str
     }
 }
 
+/// a version packet built from a typed version — number, letter, revision (absent, zero, or more) — holds exactly that
+/// version again after encoding and decoding, and its frame re-encodes to itself (an absent revision and revision 0 are
+/// equal versions but different frames)
+pub fn typed_version_case(ctx: &mut Ctx, compressed: bool, major: f32, minor: char, patch: Option<usize>) {
+    use insim_core::game_version::GameVersion;
+    let v = GameVersion { major, minor, patch };
+    if format!("{}", v).len() > 8 { return; }
+    ctx.oracle_eval("typed-version");
+    let op = format!("ver.rt {} {} {} {}", if compressed { "c" } else { "u" }, major.to_bits(), minor as u32, patch.map(|p| p.to_string()).unwrap_or("-".into()));
+    let p: Packet = insim::insim::Ver { version: v.clone(), product: "S3".into(), ..Default::default() }.into();
+    let f = match real_encode(compressed, &p) { Some(Ok(f)) => f, _ => return };
+    match real_decode(compressed, &f) {
+        Dec::Pkt(Packet::Ver(v2), _) => {
+            let w = v2.version.clone();
+            if w != v || w.major.to_bits() != major.to_bits() || w.minor != minor {
+                ctx.violation("c01/version-roundtrip", "a version packet built from this version, encoded and decoded, does not hold an equal version", &op, &format!("{:?}", v), &format!("{:?}", w));
+            } else {
+                // … and the frame the encoder produced comes back byte for byte when the decoded packet is encoded again
+                match real_encode(compressed, &Packet::Ver(v2)) {
+                    Some(Ok(f2)) if f2 == f => {},
+                    other => ctx.violation("c01/reencode/Ver", "decoding a frame the encoder produced and re-encoding it does not yield the identical bytes", &op, &hex(&f), &format!("{:?}", other.map(|r| r.map(|b| hex(&b))))),
+                }
+            }
+        },
+        Dec::Panic => ctx.violation("c01/decode-abort/Ver", "decoding the encoder's own frame aborted", &op, "a packet", &hex(&f)),
+        _ => ctx.violation("c01/encode-decode/Ver/undecodable", "the encoder's own frame does not decode", &op, "a packet", &hex(&f)),
+    }
+}
+
+/// IS_MSO as typed values, writer side: `Mso { msg, textstart }` -> the TextStart byte and the text bytes (model: Text.msoWrite)
+pub fn mso_wr_case(ctx: &mut Ctx, ts: u8, msg: &str) {
+    use insim_core::binrw::BinWrite;
+    let op = format!("mso.wr {} {} {}", ts, crate::text::cps(msg), crate::c10::inline_table(msg));
+    let m = insim::insim::Mso { msg: msg.to_string(), textstart: ts, ..Default::default() };
+    let r = guard(std::panic::AssertUnwindSafe(move || { let mut c = std::io::Cursor::new(Vec::new()); m.write_le(&mut c).map(|_| c.into_inner()).map_err(|_| ()) }));
+    let line = match &r {
+        None => "panic".to_string(),
+        Some(Err(())) => "refused".to_string(),
+        Some(Ok(b)) if b.len() >= 6 => format!("{} {}", b[5], if b.len() == 6 { "-".to_string() } else { hex(&b[6..]) }),
+        Some(Ok(b)) => format!("short {}", hex(b)),
+    };
+    ctx.case(&op, &line);
+    if r.is_none() { ctx.violation("c01/mso-typed/write-panic", "writing an IS_MSO panicked", &op, "bytes or a refusal", "panic"); }
+}
+
+/// … reader side: TextStart byte + text bytes -> (textstart, msg) (model: Text.msoReadPlan, resolved with encoding_rs)
+pub fn mso_rd_case(ctx: &mut Ctx, ts: u8, body: &[u8]) {
+    use insim_core::binrw::BinRead;
+    let op = format!("mso.rd {} {}", ts, if body.is_empty() { "-".to_string() } else { hex(body) });
+    let mut b = vec![0u8, 0, 0, 0, 0, ts];
+    b.extend_from_slice(body);
+    let r = guard(move || insim::insim::Mso::read_le(&mut std::io::Cursor::new(b)).map_err(|_| ()));
+    let line = match &r { None => "panic".to_string(), Some(Err(())) => "err".to_string(), Some(Ok(m)) => format!("{} {}", m.textstart, crate::text::cps(&m.msg)) };
+    ctx.case(&op, &line);
+    if r.is_none() { ctx.violation("c01/mso-typed/read-panic", "reading an IS_MSO panicked", &op, "a packet or an error", "panic"); }
+}
+
+/// … and the round trip the theorem `C01.mso_typed` states, on the real codec: name and text of encodable characters (none of
+/// C10's recorded exceptions), carets that start no marker, no NUL, the encoded text within 128 bytes
+pub fn mso_typed_case(ctx: &mut Ctx, name: &str, text: &str) {
+    use insim_core::binrw::{BinRead, BinWrite};
+    let msg = format!("{}{}", name, text);
+    mso_wr_case(ctx, name.len().min(255) as u8, &msg);
+    let rep = crate::text::repertoire();
+    let exc = |c: char| rep.not_inverted.iter().any(|(_, x)| *x == c) || rep.trail_5e.iter().any(|(_, x)| *x == c);
+    let caret_ok = |s: &str| { let cs: Vec<char> = s.chars().collect(); !cs.windows(2).any(|w| w[0] == '^' && "LGCETBJHSK8".contains(w[1])) };
+    let in_domain = name.len() < 256 && msg.chars().all(|c| c != '\0' && crate::text::encodable_somewhere(c) && !exc(c)) && caret_ok(name) && caret_ok(&msg)
+        && insim_core::string::codepages::to_lossy_bytes(&msg).len() <= 128;
+    if !in_domain { return; }
+    ctx.oracle_eval("mso-typed-roundtrip");
+    let op = format!("mso.typed {} {}", crate::text::cps(name), crate::text::cps(text));
+    let m = insim::insim::Mso { msg: msg.clone(), textstart: name.len() as u8, ..Default::default() };
+    let r = guard(std::panic::AssertUnwindSafe(move || {
+        let mut c = std::io::Cursor::new(Vec::new());
+        m.write_le(&mut c).map_err(|_| "write refused".to_string())?;
+        let b = c.into_inner();
+        insim::insim::Mso::read_le(&mut std::io::Cursor::new(b)).map_err(|_| "read failed".to_string())
+    }));
+    match r {
+        Some(Ok(m2)) if m2.msg == msg && m2.textstart as usize == name.len() => {},
+        other => ctx.violation("c01/mso-typed/roundtrip", "an IS_MSO built from a name and a text, written and read back, does not hold the same message and text start", &op,
+            &format!("{} {}", name.len(), crate::text::cps(&msg)), &format!("{:?}", other.map(|r| r.map(|m| format!("{} {}", m.textstart, crate::text::cps(&m.msg)))))),
+    }
+}
+
 pub fn replay(ctx: &mut Ctx, ls: &Layouts, l: &str) -> bool {
     let w: Vec<&str> = l.split_whitespace().collect();
     match w.as_slice() {
+        ["mso.wr", ts, t, ..] => { mso_wr_case(ctx, ts.parse().unwrap_or(0), &crate::text::from_cps(t)); true },
+        ["mso.rd", ts, h] => { mso_rd_case(ctx, ts.parse().unwrap_or(0), &if *h == "-" { vec![] } else { unhex(h) }); true },
+        ["mso.typed", n, t] => { mso_typed_case(ctx, &crate::text::from_cps(n), &crate::text::from_cps(t)); true },
+        ["ver.rt", m, maj, min, pat] => { typed_version_case(ctx, *m == "c", f32::from_bits(maj.parse().unwrap_or(0)), char::from_u32(min.parse().unwrap_or(65)).unwrap_or('A'), pat.parse().ok()); true },
         ["txt.rt", m, kp, t] => { let (k, p) = kp.split_once('.').unwrap_or((kp, "")); typed_text_case(ctx, ls, *m == "c", k, p, &crate::text::from_cps(t)); true },
         ["pkt.rt", m, h] => { rt_case(ctx, ls, *m == "c", &unhex(h), true); true },
         ["pkt.dec", m, h] => { let _ = dec_case(ctx, ls, *m == "c", &unhex(h)); true },
@@ -188,6 +277,43 @@ pub fn run(ctx: &mut Ctx) {
         let texts = ["abc", "a\u{448}\u{44e}", "\u{e9}\u{448}", "1\u{7f8e}", "X\u{3ce}", "\u{11b}\u{161}", "\u{448}a", "a b", "\u{e9}", "\u{20ac}\u{448}", "x^1y", "\u{ff}\u{fe}", "Z\u{11b}"];
         for (kind, path, _) in crate::c11::text_builders() {
             for t in texts { for compressed in [true, false] { typed_text_case(ctx, &ls, compressed, kind, path, t); } }
+        }
+    }
+    // IS_MSO as typed values (message + text start): the writer, the reader and the round trip, against the typed model
+    {
+        let names = ["", "Player", "P", "\u{11b}", "^7Player \u{11b} ^7: ", "\u{418}\u{432}\u{430}\u{43d} : ", "\u{65e5}\u{672c} ", "a\u{e9}\u{3b1}\u{436}", "host^1x : ", "\u{e9}", "^", "x^"];
+        let texts = ["", "hi", "cr\u{161}\u{10d}", "^8cr\u{161}\u{10d}", "\u{43f}\u{440}\u{438}\u{432}\u{435}\u{442}", "Lap ^1\u{3b1}\u{3b2}", "a", "E", "8x", "\u{7f8e}\u{4e3d}", "caf\u{e9} | ok?"];
+        for n in names { for t in texts { mso_typed_case(ctx, n, t); } }
+        // text starts that are not the name's length: inside a character, beyond the message, wrapped
+        for (ts, msg) in [(1u8, "\u{11b}x"), (3, "ab"), (255, "abc"), (2, "a\u{e9}b"), (1, ""), (4, "\u{1f600}!"), (2, "\u{1f600}!")] { mso_wr_case(ctx, ts, msg); }
+        // long messages: name and text together beyond the 128-byte field
+        for k in [120usize, 126, 127, 128, 129, 140, 200, 300] {
+            let long: String = "ab\u{11b}".chars().cycle().take(k).collect();
+            mso_wr_case(ctx, 0, &long);
+            mso_wr_case(ctx, 3, &long);
+            if k <= 255 { mso_wr_case(ctx, k as u8, &format!("{}tail", "n".repeat(k))); }
+        }
+        // the reader on wire forms the writer does not produce: a text start inside a character or a marker, beyond the text,
+        // NULs in the name part, markers on both sides
+        let bodies: Vec<Vec<u8>> = vec![
+            b"abc : hi\0\0\0\0".to_vec(), b"^Eab\xec : ^8c\x9a\0\0".to_vec(), b"^J\x93\xfa\x96\x7b : x\0\0".to_vec(), b"na\0me : text\0\0\0".to_vec(), b"\0\0\0\0".to_vec(),
+            b"^".to_vec(), b"a^".to_vec(), b"^C\xef\xf0\xe8^c \xec\xe8\xf0\0".to_vec(), vec![], b"^G\xe1^L\xe9^K\xb0\xa1 : \xb0\xa1".to_vec(), b"x^Ey\xec".to_vec(),
+        ];
+        for b in &bodies { for ts in 0..=(b.len() as u8 + 2) { mso_rd_case(ctx, ts, b); } mso_rd_case(ctx, 255, b); }
+        for _ in 0..(if quick { 300 } else { 30_000 }) {
+            let k = ctx.rng.below(24) as usize;
+            let b: Vec<u8> = (0..k).map(|_| { let r = ctx.rng.below(12); if r < 2 { b'^' } else if r < 4 { *ctx.rng.pick(b"LGCETBJHSK8c") } else if r < 5 { 0 } else if r < 8 { 0x80 + ctx.rng.below(0x7f) as u8 } else { b'a' + ctx.rng.below(26) as u8 } }).collect();
+            let ts = ctx.rng.below(k as u64 + 3) as u8;
+            mso_rd_case(ctx, ts, &b);
+        }
+        ctx.exhaustive_domains.push("IS_MSO typed: 12 names x 11 texts through writer, reader and round trip; text starts off the character grid; 8 over-long messages; 11 wire forms x every text start; random wire forms".into());
+    }
+    // … and a version packet built from a typed version
+    for major in [0.7f32, 0.6, 0.5, 1.0, 0.04, 12.5] {
+        for minor in ['A', 'D', 'Z'] {
+            for patch in [None, Some(0usize), Some(1), Some(9), Some(10), Some(64), Some(100), Some(1234)] {
+                for compressed in [true, false] { typed_version_case(ctx, compressed, major, minor, patch); }
+            }
         }
     }
     // frames that are canonical by construction (built from the specification table by C02's reference codec)
